@@ -53,6 +53,16 @@ def decode(vals, sig):
     return out
 
 
+TEST_PREFIX = {"encrypt": "layers::encrypt::", "compress": "layers::compress::", "raw": "layers::raw::",
+               "position": "layers::position::", "lib": "", "aesgcm": "crypto::aesgcm::", "ecc": "crypto::ecc::"}
+
+
+def full_test_path(template):
+    mod = template.split("::")[0]
+    name = mod.replace("verif_replay_", "")
+    return TEST_PREFIX.get(name, "") + template
+
+
 def build_native(ov):
     nat = os.path.join(ov, "native")
     if os.path.isdir(nat):
@@ -82,7 +92,7 @@ def build_native(ov):
     return nat
 
 
-def run_native(ov, template, values, outdir, tag, profiles=("dev", "release")):
+def run_native(ov, template, values, outdir, tag, profiles=("dev", "release"), scaled=False):
     """run native template; returns dict(status, summary, log)"""
     nat = build_native(ov)
     cache = os.path.join(kani_run.CACHE, "target-native")
@@ -99,7 +109,9 @@ def run_native(ov, template, values, outdir, tag, profiles=("dev", "release")):
         cmd = ["cargo", "test", "--offline", "--lib", "--target-dir", tdir]
         if prof == "release":
             cmd.append("--release")
-        cmd += ["--", template, "--nocapture", "--test-threads", "1"]
+        if scaled:
+            cmd += ["--features", "mla_verif"]
+        cmd += ["--", full_test_path(template), "--exact", "--nocapture", "--test-threads", "1"]
         with open(log, "w") as lf:
             try:
                 p = subprocess.run(cmd, cwd=os.path.join(nat, "mla"), env=env, stdout=lf, stderr=subprocess.STDOUT, timeout=1500)
@@ -142,7 +154,7 @@ def confirm(h, r, ov, env, outdir):
     env2 = dict(env)
     env2["VERIF_REPLAY_CAP"] = "1"
     log = os.path.join(outdir, f"playback-{h['name']}.log")
-    res, rc, wall = kani_run.run_group(ov, h["crate"], [h], env2, 1, log, playback=True)
+    res, rc, wall = kani_run.run_group(ov, h["crate"], [h], env2, 1, log, playback=True, scaled=h.get("scaled", False))
     pr = res[h["name"]]
     vals = pr.get("concrete_vals")
     if pr["status"] == "SUCCESSFUL":
@@ -154,7 +166,7 @@ def confirm(h, r, ov, env, outdir):
                 "playback_s": round(wall, 1)}
     values = decode(vals, sig)
     values.update(consts)
-    out = run_native(ov, template, values, outdir, h["name"])
+    out = run_native(ov, template, values, outdir, h["name"], scaled=h.get("scaled", False))
     out["values"] = values
     out["template"] = template
     out["playback_s"] = round(wall, 1)
